@@ -1,6 +1,7 @@
 import AgVerif.Model.Proto
 import AgVerif.Model.Translate
 import AgVerif.Model.LitCtx
+import AgVerif.Model.JExpr
 open AgVerif AgVerif.Proto AgVerif.Translate
 
 /-- `eval <opcode> <dom> <lit> <i1> <i2> <i3> <l1> <l2> <l3>`:
@@ -12,6 +13,90 @@ def showJ : Except JavaSem.Err JavaSem.Val → String
   | .ok v => match regVal v with
     | some d => showDVal d
     | none => "rejected"
+
+/-! `jexpr <tree>`: the IR expression tree in prefix form (one word per field) -/
+namespace JX
+open AgVerif.JExpr
+
+def binOf (s : String) : Option BinOp := BinOp.all.find? (fun o => o.text == s)
+def primOf (s : String) : Option Prim := Prim.all.find? (fun o => o.text == s)
+def qn (s : String) : Option (String × List String) :=
+  match s.splitOn "." with
+  | h :: t => some (h, t)
+  | [] => none
+
+mutual
+def dec : Nat → List String → Option (DExpr × List String)
+  | 0, _ => none
+  | f + 1, ws =>
+    match ws with
+    | "const" :: v :: l :: r => v.toInt?.map fun v => (.const v (l == "1"), r)
+    | "var" :: n :: r => some (.var n, r)
+    | "param" :: n :: r => some (.param n, r)
+    | "this" :: r => some (.this, r)
+    | "base" :: c :: r => (qn c).map fun (h, t) => (.baseClass h t, r)
+    | "bin" :: o :: r => do
+      let o ← binOf o; let (a, r) ← dec f r; let (b, r) ← dec f r; pure (.bin o a b, r)
+    | "cond" :: o :: r => do
+      let o ← binOf o; let (a, r) ← dec f r; let (b, r) ← dec f r; pure (.cond o a b, r)
+    | "cmp" :: l :: r => do
+      let (a, r) ← dec f r; let (b, r) ← dec f r; pure (.cmp (l == "1") a b, r)
+    | "condz" :: o :: k :: r => do
+      let o ← binOf o
+      let k ← (match k with | "bool" => some ZKind.bool | "num" => some .num | "ref" => some .ref | _ => none)
+      let (a, r) ← dec f r; pure (.condz o a k, r)
+    | "un" :: o :: r => do
+      let o ← (match o with | "-" => some DUnOp.neg | "~" => some .not | _ => none)
+      let (a, r) ← dec f r; pure (.un o a, r)
+    | "cast" :: t :: r => do
+      let t ← primOf t; let (a, r) ← dec f r; pure (.cast t a, r)
+    | "ccast" :: c :: r => do
+      let (h, t) ← qn c; let (a, r) ← dec f r; pure (.checkCast h t a, r)
+    | "getf" :: n :: r => do
+      let (a, r) ← dec f r; pure (.getField a n, r)
+    | "gets" :: c :: n :: r => (qn c).map fun (h, t) => (.getStatic h t n, r)
+    | "aload" :: r => do
+      let (a, r) ← dec f r; let (i, r) ← dec f r; pure (.aload a i, r)
+    | "alen" :: r => do
+      let (a, r) ← dec f r; pure (.alength a, r)
+    | "newarr" :: t :: r => do
+      let t ← (match primOf t with
+        | some p => some (JType.prim p)
+        | none => (qn t).map fun (h, tl) => JType.ref (h :: tl))
+      let (a, r) ← dec f r; pure (.newArray t a, r)
+    | "invoke" :: n :: k :: r => do
+      let k ← k.toNat?; let (b, r) ← dec f r; let (as, r) ← decList f k r; pure (.invoke b n as, r)
+    | "new" :: c :: k :: r => do
+      let (h, t) ← qn c; let k ← k.toNat?; let (as, r) ← decList f k r; pure (.newObj h t as, r)
+    | _ => none
+
+def decList : Nat → Nat → List String → Option (List DExpr × List String)
+  | 0, _, _ => none
+  | _ + 1, 0, r => some ([], r)
+  | f + 1, k + 1, r => do
+    let (a, r) ← dec f r; let (as, r) ← decList f k r; pure (a :: as, r)
+end
+
+/-- lexeme with its kind: i identifier, n number, k keyword, o operator/separator -/
+def tokText : JExpr.Tok → String
+  | .id s => "i:" ++ s
+  | .int n => "n:" ++ toString n
+  | .long n => "n:" ++ toString n ++ "L"
+  | .kwNew => "k:new" | .kwThis => "k:this" | .kwNull => "k:null"
+  | .prim p => "k:" ++ p.text
+  | t => "o:" ++ t.text
+
+def toksText (ts : List JExpr.Tok) : String := " ".intercalate (ts.map tokText)
+
+def reply (e : DExpr) : String :=
+  let ts := print e
+  let p := match parse ts with
+    | none => "none"
+    | some j => if reprStr j == reprStr (toJava e) then "ok" else "differs"
+  "wf=" ++ (if wf e then "1" else "0") ++ " level=" ++ toString (level e) ++ " parse=" ++ p ++
+    " toks=" ++ toksText ts
+
+end JX
 
 def handle (line : String) : String :=
   match words line with
@@ -49,6 +134,10 @@ def handle (line : String) : String :=
          "text=" ++ printExpr e ++ " | java=" ++ showJ (JavaSem.eval ρ e)
        | none => "no-context")
     | _, _, _, _ => "bad-op"
+  | "jexpr" :: ws =>
+    (match JX.dec (ws.length + 1) ws with
+     | some (e, []) => JX.reply e
+     | _ => "bad-tree")
   | _ => "bad-op"
 
 def main : IO Unit := runMain handle
